@@ -79,6 +79,30 @@ Theorem C10_delete_guard : forall c Q n,
 Proof. exact delete_guard. Qed.
 Print Assumptions C10_delete_guard.
 
+(* the deletion clause "a queue that has allocated pods is not deleted" is FALSE on the current code
+   in the default configuration (EnableQueueAllocatedPodsCheck = false): a queue whose status shows
+   3 allocated pods is deleted (known finding C10-delete-allocated-pods-flag-off; law 107) *)
+Theorem C10_delete_allocated_without_flag_refuted :
+  exists c Q n s, TreeInv c Q /\ alloc_check c = false /\ Q !! n = Some s /\ qalloc s <> 0 /\
+                  verdict_of c Q (Delete n) = VAllowed /\ (apply_if_admitted c Q (Delete n)) !! n = None.
+Proof. exact delete_allocated_without_flag_refuted. Qed.
+Print Assumptions C10_delete_allocated_without_flag_refuted.
+
+(* the executable guard of law 105 means the clause of C10_delete_guard, and accepts every DELETE
+   the model admits *)
+Theorem C10_delete_guard_law_sound : forall c Q n,
+  delete_guardb c Q (Delete n) = true ->
+  n <> root /\ n <> default_q /\
+  exists s, Q !! n = Some s /\ (alloc_check c = true -> qalloc s = 0) /\
+            forall m sm, Q !! m = Some sm -> qparent sm <> Some n.
+Proof. exact delete_guardb_sound. Qed.
+Print Assumptions C10_delete_guard_law_sound.
+
+Theorem C10_delete_guard_law_complete : forall c Q n,
+  verdict_of c Q (Delete n) = VAllowed -> delete_guardb c Q (Delete n) = true.
+Proof. exact delete_guardb_complete. Qed.
+Print Assumptions C10_delete_guard_law_complete.
+
 Theorem C10_root_and_default_stay : forall c rs n Q0,
   n = root \/ n = default_q -> is_Some (Q0 !! n) -> is_Some (run_history c Q0 rs !! n).
 Proof. exact protected_history. Qed.
@@ -89,6 +113,24 @@ Print Assumptions C10_root_and_default_stay.
 Theorem C10_checker_sound : forall c Q, tree_okb c Q = true -> TreeInv c Q.
 Proof. exact tree_okb_sound. Qed.
 Print Assumptions C10_checker_sound.
+
+(* --- the root queue is carved out of clauses 7 and 8 by the code (SumInv and CapInv say "parent /
+   ancestor other than root"): with explicit amounts on root, an admitted top-level queue exceeds
+   root's guarantee, deserved and capability --- *)
+Theorem C10_root_not_enforced_refuted :
+  exists c Q n s sr d, TreeInv c Q /\ Q !! root = Some sr /\ qparent s = Some root /\
+    verdict_of c Q (Create n s) = VAllowed /\
+    amount (qguar sr) d < csum qguar (apply_if_admitted c Q (Create n s)) root d /\
+    amount (qdes sr) d < csum qdes (apply_if_admitted c Q (Create n s)) root d /\
+    0 < capd sr d /\ capd sr d < capd s d.
+Proof. exact root_not_enforced_refuted. Qed.
+Print Assumptions C10_root_not_enforced_refuted.
+
+(* --- the model's "fuel exhausted" answer (where the Go recursion would not return) never occurs
+   on a queue set satisfying ShapeInv --- *)
+Theorem C10_no_fuel_verdict : forall c Q, ShapeInv c Q -> forall r, verdict_of c Q r <> VFuel.
+Proof. exact no_fuel_verdict. Qed.
+Print Assumptions C10_no_fuel_verdict.
 
 (* --- the record of the defects: the validation as it was BEFORE the fixes admits a re-parenting
    that closes a cycle, one that pushes a moved subtree beyond the depth limit (F3, first fix), and
@@ -119,3 +161,9 @@ Example C10_hypotheses_satisfiable :
   [VAllowed; VAllowed; VSiblingSum; VAllowed; VSpec; VAllowed; VAllowed; VCycle; VRootParent; VAllowed; VAllowed;
    VCapAncestor; VAllowed; VDelChildren].
 Proof. split; [done|]. split; [exact ex_tree_inv|exact ex_history_verdicts]. Qed.
+
+(* the bootstrap queue set of a fresh cluster, {root, default}, satisfies the invariant *)
+Example C10_bootstrap_satisfies_invariant :
+  TreeInv default_cfg (list_to_map [(root, q_ None [] [] []); (default_q, q_ (Some root) [] [] [])]) /\
+  TreeInv default_cfg (list_to_map [(root, q_ None [] [] []); (default_q, q_ None [] [] [])]).
+Proof. exact bootstrap_tree_inv. Qed.
